@@ -576,16 +576,26 @@ mod exec {
     // for the process: a process blocked writing output that nobody will read
     // any more never exits, so the wait would deadlock on our own pipe.  With
     // the read end closed the process receives SIGPIPE (or EPIPE) instead.
+    //
+    // The same goes for any other stream of the command that was set to
+    // Redirection::Pipe: its parent end is locked away in the adapter where
+    // the caller cannot reach it, so all of them are released here.
+
+    fn close_pipes(popen: &mut Popen) {
+        popen.stdin.take();
+        popen.stdout.take();
+        popen.stderr.take();
+    }
 
     impl Drop for ReadOutAdapter {
         fn drop(&mut self) {
-            self.0.stdout.take();
+            close_pipes(&mut self.0);
         }
     }
 
     impl Drop for ReadErrAdapter {
         fn drop(&mut self) {
-            self.0.stderr.take();
+            close_pipes(&mut self.0);
         }
     }
 
@@ -597,7 +607,7 @@ mod exec {
 
     impl Drop for WriteAdapter {
         fn drop(&mut self) {
-            self.0.stdin.take();
+            close_pipes(&mut self.0);
         }
     }
 
@@ -1178,6 +1188,11 @@ mod pipeline {
     impl Drop for ReadPipelineAdapter {
         // the same rationale as Drop for ReadOutAdapter
         fn drop(&mut self) {
+            // and a piped stdin of the first command, which nobody can
+            // reach through this adapter either
+            if let Some(first) = self.0.first_mut() {
+                first.stdin.take();
+            }
             if let Some(last) = self.0.last_mut() {
                 last.stdout.take();
             }
@@ -1208,6 +1223,11 @@ mod pipeline {
         fn drop(&mut self) {
             let first = &mut self.0[0];
             first.stdin.take();
+            // and a piped stdout of the last command, which nobody can
+            // reach through this adapter either
+            if let Some(last) = self.0.last_mut() {
+                last.stdout.take();
+            }
         }
     }
 }
